@@ -192,9 +192,15 @@ def install(roots, hook=None):
         def w(*a, **k):
             fd = a[0] if a else None
             if isinstance(fd, int) and fd in STATE.fds:
-                boundary(name, "fd:" + rel(STATE.fds[fd]))
+                r = boundary(name, "fd:" + rel(STATE.fds[fd]))
                 if name == "close":
                     STATE.fds.pop(fd, None)
+                if name == "write" and isinstance(r, tuple) and r and r[0] in ("short", "torn") and len(a) > 1:
+                    n = max(1, min(len(a[1]), int(r[1])))
+                    done = f(fd, a[1][:n])  # a legal short write: fewer bytes than asked for, reported truthfully
+                    if r[0] == "torn":
+                        os._exit(137)
+                    return done
             return f(*a, **k)
 
         w.__name__ = name
